@@ -103,6 +103,8 @@ def corpus(seed, count=96):
             lines.append(ent)
     with open(os.path.join(d, "corpus.txt"), "a") as f:
         f.write("\n".join(lines) + "\n")
+    with open(os.path.join(d, "sweep_extra.txt")) as f:
+        sweep += [l.strip() for l in f if l.strip()]
     with open(os.path.join(d, "sweep.txt"), "w") as f:
         f.write("\n".join(sweep) + "\n")
     mark_done(d)
